@@ -135,7 +135,71 @@ fn build(edges: &[Value], lists: &Value, names: &[String], variant: u64, pad_rol
     Built { t, shipped, by_digest }
 }
 
+/// C05 for delegated roles: listed in snapshot with the right version, or not.
+async fn pin_case(c: &Value) -> Value {
+    let depth = c["depth"].as_u64().unwrap();
+    let listed = c["listed"].as_bool().unwrap();
+    let pinned = c["pinned"].as_u64().unwrap();
+    let filev = c["file"].as_u64().unwrap();
+    let cons = c["cons"].as_bool().unwrap();
+    let (r, ts, sn, tg) = (ed_key(100), ed_key(101), ed_key(102), ed_key(103));
+    let (k1, k2) = (role_key("a"), role_key("b"));
+    let root = root_signed(1, EXP, cons, &[&r, &ts, &sn, &tg], &[
+        ("root", vec![r.keyid.clone()], 1), ("timestamp", vec![ts.keyid.clone()], 1),
+        ("snapshot", vec![sn.keyid.clone()], 1), ("targets", vec![tg.keyid.clone()], 1)]);
+    let shipped = to_bytes(&envelope(&root, &[&r]));
+    let t = MemTransport::new();
+    let pre = |v: u64, n: &str| if cons { format!("metadata/{v}.{n}") } else { format!("metadata/{n}") };
+    // role under test: "a" at depth 1, or "b" below "a" at depth 2
+    let under = if depth == 1 { "a" } else { "b" };
+    let b_doc = targets_signed(if under == "b" { filev } else { 1 }, EXP, Map::new(), None);
+    let a_deleg = if depth == 2 {
+        Some(delegations_json(&[&k2], vec![delegated_role_json("b", &[k2.keyid.clone()], 1, &["*"], false)]))
+    } else { None };
+    let a_doc = targets_signed(if under == "a" { filev } else { 1 }, EXP, Map::new(), a_deleg);
+    let top = targets_signed(1, EXP, Map::new(), Some(delegations_json(&[&k1], vec![delegated_role_json("a", &[k1.keyid.clone()], 1, &["*"], false)])));
+    let mut meta = Map::new();
+    meta.insert("targets.json".into(), meta_entry(1, None, None));
+    let ver_of = |role: &str| if role == under { pinned } else { 1 };
+    for role in ["a", "b"] {
+        if role == "b" && depth == 1 { continue; }
+        if role == under && !listed { continue; }
+        meta.insert(format!("{role}.json"), meta_entry(ver_of(role), None, None));
+    }
+    // files are served under every name the client could ask for (pinned and actual version)
+    for v in [1u64, 2] {
+        t.put_body(&pre(v, "a.json"), to_bytes(&envelope(&a_doc, &[&k1])));
+        t.put_body(&pre(v, "b.json"), to_bytes(&envelope(&b_doc, &[&k2])));
+    }
+    t.put_body(&pre(1, "targets.json"), to_bytes(&envelope(&top, &[&tg])));
+    t.put_body(&pre(1, "snapshot.json"), to_bytes(&envelope(&snapshot_signed(1, EXP, meta), &[&sn])));
+    t.put_body("metadata/timestamp.json", to_bytes(&envelope(&timestamp_signed(1, EXP, meta_entry(1, None, None)), &[&ts])));
+    let r = guard(load(&shipped, &t, None, None, true)).await;
+    let log = t.take_log();
+    let reqs: Vec<String> = log.iter().map(|l| l.name.trim_start_matches("metadata/").to_string()).collect();
+    let (ok, cls, ver) = match r {
+        Err(p) => (false, format!("panic:{p}"), 0),
+        Ok(Err(e)) => (false, classify(&e), 0),
+        Ok(Ok(rp)) => {
+            let v = rp.delegated_role(under).and_then(|d| d.targets.as_ref()).map(|x| x.signed.version.get()).unwrap_or(0);
+            (true, "ok".to_string(), v)
+        }
+    };
+    json!({"loaded": ok, "cls": cls, "role_version": ver, "reqs": reqs,
+           "expected_name": if cons { format!("{pinned}.{under}.json") } else { format!("{under}.json") }})
+}
+
 pub fn run(args: &[String]) {
+    if arg_or(args, "--mode", "tree") == "pins" {
+        let cases = read_ndjson(&arg(args, "--cases").expect("--cases"));
+        let out = arg(args, "--out").expect("--out");
+        let rows = par_map(cases, threads(), move |_, c| async move {
+            let o = pin_case(&c["c"]).await;
+            json!({"in": c, "obs": o})
+        });
+        write_ndjson(&out, &rows);
+        return;
+    }
     let cases = read_ndjson(&arg(args, "--cases").expect("--cases"));
     let out = arg(args, "--out").expect("--out");
     let mode = arg_or(args, "--mode", "tree");
